@@ -56,6 +56,8 @@ def strish(v):
         return isinstance(v.v, str)
     if isinstance(v, Fin):
         return all(isinstance(x, str) for x in v.table.values())
+    if isinstance(v, Opaque) and v.is_str:
+        return True
     return isinstance(v, App) and v.op in ("cat", "join", "str", "fmt")
 
 
@@ -270,12 +272,28 @@ class ExprMixin(object):
                     )
                     self.assume(st, mk_not(errs))
                     r = st.folder().restrict(r)
-                if isinstance(r, Fin) and any(isinstance(x, (dict, list)) for x in r.table.values()):
-                    raise AnalysisError("E5.subscript", "symbolic selection of a sub-table", node, module)
                 return r
             if isinstance(idx, App) and idx.op == "cat" and isinstance(cont, dict):
                 return self.lookup_cat(st, cont, idx, node, module)
             raise AnalysisError("E5.subscript", "table lookup with key %r" % (idx,), node, module)
+        if isinstance(base, Fin) and is_discrete(idx) and all(
+            isinstance(x, (dict, list, tuple)) for x in st.folder().restrict(base).table.values()
+        ) if isinstance(st.folder().restrict(base), Fin) else False:
+            fo = st.folder()
+
+            def look2(cont, k):
+                try:
+                    return cont[k]
+                except (KeyError, IndexError, TypeError):
+                    return ERR
+
+            r = fo.fold(look2, [base, idx])
+            errs = fo.fold(lambda c, k: look2(c, k) is ERR, [base, idx])
+            if not (isinstance(errs, Const) and not errs.v):
+                self.hazard(st, "KeyError", node, module, errs, "lookup %s: key may be missing in the selected sub-table" % short(node))
+                self.assume(st, mk_not(errs))
+                r = st.folder().restrict(r)
+            return r
         if isinstance(base, Fin) and strish(base) and is_discrete(idx):
             def ix(s, i):
                 try:
@@ -581,6 +599,21 @@ class ExprMixin(object):
                 for g, v in o.items:
                     cs.append(mk_and([g, self.compare_sym(st, "==", item, v, node, module, False)]))
                 return mk_or(cs)
+        if isinstance(item, App) and item.op == "type" and isinstance(container, TupleVal) and all(
+            isinstance(x, Builtin) for x in container.items
+        ):
+            names = set(x.name for x in container.items)
+            x = item.args[0]
+            kind = None
+            if isinstance(x, P):
+                kind = x.kind
+            elif is_numeric(x):
+                kind = self.to_poly(st, x, node, module).kind
+            if kind in ("flt", "int") and {"float", "int"} <= names:
+                return TRUE
+            if kind == "dec" and not (names & {"Decimal", "D"}):
+                return FALSE
+            return App("in", (item, Opaque("types:" + ",".join(sorted(names)))))
         if isinstance(container, TupleVal):
             return mk_or([self.compare_sym(st, "==", item, v, node, module, False) for v in container.items])
         if isinstance(container, Const) and isinstance(container.v, (dict, list, tuple, str)):
